@@ -27,7 +27,7 @@ PROBES = {
             "batching_invariance_checked", "labels_after_stale_checked",
             "same_integers_other_kind", "frozen_model_same_time_points_checked",
             "components_reused_elsewhere", "remembered_absolute_horizon_reused",
-            "labels_after_update_predict_checked"],
+            "labels_after_update_predict_checked", "horizon_remembered_across_update_predict"],
     "C03": ["gapped_fh", "absolute_fh", "fh_at_fit", "fh_reused_across_cutoffs",
             "predict_after_update", "shifted_twin_checked", "gapped_vs_contiguous_checked",
             "exogenous_data", "stale_batch", "failed_call_injected", "unsorted_fh", "fh_as_index",
@@ -35,7 +35,7 @@ PROBES = {
             "int_index_nonzero_origin", "negative_origin", "composite_depth2",
             "tuned_forecaster", "same_integers_other_kind", "components_reused_elsewhere",
             "frozen_model_same_time_points_checked", "remembered_absolute_horizon_reused",
-            "labels_after_update_predict_checked"],
+            "labels_after_update_predict_checked", "horizon_remembered_across_update_predict"],
 }
 FAULT_KINDS = {
     "C10": ["overlap_batch", "empty_batch", "pickle_roundtrip", "schedule_ooo",
@@ -103,6 +103,14 @@ def generate(prop, rng, tier):
                        "fh": [1, 2]},
                 "grid": {"strategy": ["last", "mean", "drift"], "window_length": rng.choice([[3, 4], [None, 4]])},
                 "n_jobs": rng.choice([None, 2, 3]), "refit": True}
+    if rng.random() < 0.04:
+        # a tuned forecaster as one member of an ensemble / as the selected member
+        tuned = {"kind": "gscv", "forecaster": {"kind": "naive", "strategy": "last", "sp": 1, "window_length": None},
+                 "cv": {"type": "sliding", "window": 5, "step": 2, "fh": [1, 2]},
+                 "grid": {"strategy": ["last", "mean"], "window_length": [3, 4]}, "n_jobs": None, "refit": True}
+        other = {"kind": "trend", "degree": 1, "with_intercept": True}
+        spec = rng.choice([{"kind": "ensemble", "members": [tuned, other], "aggfunc": "mean", "n_jobs": None},
+                           {"kind": "mux", "members": [tuned, other], "selected": 0}])
     if prop == "C10" and rng.random() < 0.06:
         # pipelines whose transformers keep what they learnt in fit (seasonal components
         # aligned to the training start) across updates
@@ -748,10 +756,15 @@ class Engine:
                     and not C.needs_fh_at_fit(self.spec):
                 self.res.probe("labels_after_update_predict_checked")
                 self.labels_after_stale(i, fhs)
+            elif fhs is None and self.a.fh_steps is not None and not self.a.fh_abs \
+                    and not self.stale_state and not C.needs_fh_at_fit(self.spec):
+                # no horizon given: the one remembered from before the rolling call
+                self.res.probe("horizon_remembered_across_update_predict")
+                self.labels_after_stale(i, {"steps": list(self.a.fh_steps), "abs": False}, remembered=True)
             return
         self.predict_and_check(i, fhs)
 
-    def labels_after_stale(self, i, fhs):
+    def labels_after_stale(self, i, fhs, remembered=False):
         steps = list(fhs["steps"])
         for who, actor in (("primary", self.a), ("twin", self.tw)):
             if actor is None:
@@ -759,7 +772,7 @@ class Engine:
             try:
                 with peers.paused():
                     g = pickle.loads(pickle.dumps(actor.f))  # (predict would change the remembered fh)
-                    p = g.predict(_mk_fh(fhs, actor.label(actor.cut), actor.kind))
+                    p = g.predict() if remembered else g.predict(_mk_fh(fhs, actor.label(actor.cut), actor.kind))
             except Exception:
                 return
             self.res.probe("labels_after_stale_checked")
@@ -776,6 +789,11 @@ class Engine:
                            op="predict", after_update=True, values=True)
                     self.dead = True
                     return
+            if remembered and isinstance(p, pd.Series) and len(p) != len(steps):
+                self.v("wrong_length", "predict() after update_predict returns %d values for the "
+                       "remembered horizon %s (%s)" % (len(p), steps, who), op="predict", after_update=True)
+                self.dead = True
+                return
             if isinstance(p, pd.Series) and len(p) == len(steps) and not C.same_index(list(p.index), exp):
                 self.v("forecast_not_from_new_cutoff", "after an update (update_params=False) with a "
                        "batch ending at %s, predict(%s) is labelled %s, expected %s (%s)" % (
@@ -957,10 +975,8 @@ class Engine:
         self.snap_refit = None
         self.snap_fit = None
         self.after_upd = True
-        if not C.needs_fh_at_fit(self.spec):
-            for actor in self.actors():
-                actor.fh_abs = True  # which horizon is remembered now is unspecified
-                actor.fh_cut = None
+        # (the horizon remembered before the call is still the remembered one afterwards: the
+        # splitter's horizon is the call's own)
         self.note("upd", take, cvs, up, C.digest_obj(out))
         # model: everything inside a training window was handed to update
         last = -1
